@@ -40,6 +40,19 @@ def recursion_budget(rep, prog):
                     rep.ok(rule, key, 'dominated by limit_reached()? on the same context', cs.loc())
                 else:
                     rep.bad(rule, key, cs.loc(), 'enter_recursion() is not dominated by a propagated limit_reached()? on the same context: the recursion budget can underflow / nesting is not refused')
+    # the converse: a function that tests the budget (it is a nesting point) hands the nested decode a decremented context
+    for b in prog.bodies.values():
+        if b.crate != 'pilota' or not b.key.startswith('prost::') or b.kind not in ('Fn', 'AssocFn'):
+            continue
+        lr = [cs for cs in b.calls() if cs.name == 'limit_reached' and 'DecodeContext' in cs.callee]
+        if not lr:
+            continue
+        er = [cs for cs in b.calls() if cs.name == 'enter_recursion' and 'DecodeContext' in cs.callee]
+        key = '%s|%s|nesting point decrements' % (rule, b.id)
+        if er:
+            rep.ok(rule, key, 'limit_reached()? is followed by enter_recursion() for the nested decode', lr[0].loc())
+        else:
+            rep.bad(rule, key, lr[0].loc(), '%s tests the recursion budget but passes the context on without enter_recursion(): this nesting level is never counted, so nesting through it is unbounded (stack overflow on crafted input)' % b.key)
     rep.floor(rule, 4)
     c = None
     for k, v in prog.consts.items():
